@@ -3,42 +3,43 @@
 always revert, and record the outcome in seeded/<id>/result.json.
 usage: tools/score_seeded.py [--all-checks] [seeded-id ...]"""
 import json, os, subprocess, sys, time
-V = "/verif"
+V = os.path.dirname(os.path.dirname(os.path.abspath(__file__)))
+REPO = os.environ.get("VERIF_REPO", "/repo")
 ALL = ["C%02d" % i for i in range(1, 18)]
 args = [a for a in sys.argv[1:] if not a.startswith("--")]
 all_checks = "--all-checks" in sys.argv
 ids = args or sorted(os.listdir(os.path.join(V, "seeded")))
 def sh(cmd, cwd=None, timeout=3600):
     return subprocess.run(cmd, shell=True, cwd=cwd, capture_output=True, text=True, timeout=timeout)
-assert sh("git diff --quiet", "/repo").returncode == 0, "/repo is dirty"
+assert sh("git diff --quiet", REPO).returncode == 0, "/repo is dirty"
 for sid in ids:
     d = os.path.join(V, "seeded", sid)
     patch = os.path.join(d, "patch.diff")
     if not os.path.exists(patch):
         continue
     prop = sid.split("-")[0]
-    res = {"seeded": sid, "property": prop, "repo_head": sh("git log --format=%h -1", "/repo").stdout.strip(), "checks": {}}
-    r = sh("git apply %s || (git apply --3way %s && git reset -q)" % (patch, patch), "/repo")
-    if sh("git diff --quiet", "/repo").returncode == 0:
+    res = {"seeded": sid, "property": prop, "repo_head": sh("git log --format=%h -1", REPO).stdout.strip(), "checks": {}}
+    r = sh("git apply %s || (git apply --3way %s && git reset -q)" % (patch, patch), REPO)
+    if sh("git diff --quiet", REPO).returncode == 0:
         res["applies"] = False
         print(sid, "PATCH DOES NOT APPLY", r.stderr[-200:])
-        sh("git reset -q --hard HEAD", "/repo")
+        sh("git reset -q --hard HEAD", REPO)
         json.dump(res, open(os.path.join(d, "result.json"), "w"), indent=1)
         continue
     res["applies"] = True
     try:
-        b = sh("CARGO_NET_OFFLINE=true cargo nextest run --workspace --no-fail-fast --test-threads 8 --offline 2>&1 | tail -1", "/repo")
+        b = sh("CARGO_NET_OFFLINE=true cargo nextest run --workspace --no-fail-fast --test-threads 8 --offline 2>&1 | tail -1", REPO)
         res["baseline"] = b.stdout.strip()
         todo = ALL if all_checks else [prop]
         for c in todo:
             t0 = time.time()
-            o = sh("./check %s quick" % c, V)
+            o = sh("VERIF_REPO=%s ./check %s quick" % (REPO, c), V)
             lines = o.stdout.split("\n")
             tags = sorted(set(l.split("]")[0] + "]" + l.split("]", 1)[1].split(":")[0] for l in lines if l.startswith("violation [")))
             verdict = "VIOLATION" if o.returncode == 1 else ("OK" if o.returncode == 0 else "HARNESS-ERROR")
             res["checks"][c] = {"verdict": verdict, "tags": tags[:6], "wall_s": round(time.time() - t0, 1)}
             print(sid, c, verdict, tags[:3])
     finally:
-        sh("git reset -q --hard HEAD; git clean -fdq tests", "/repo")
+        sh("git reset -q --hard HEAD; git clean -fdq tests", REPO)
     json.dump(res, open(os.path.join(d, "result.json"), "w"), indent=1)
-assert sh("git diff --quiet", "/repo").returncode == 0
+assert sh("git diff --quiet", REPO).returncode == 0
